@@ -191,8 +191,15 @@ NoZeroPivot == (fact.err = "none" /\ ~(logical /\ nops = 0) /\ (logical => \E k 
 -----------------------------------------------------------------------------
 (* export of behaviours for replay into the real engine *)
 RatJ(r) == <<r[1], r[2]>>
+\* every value computed so far is a dyadic rational: binary floating point then reproduces the exact arithmetic, and
+\* in particular an exactly vanishing pivot.  Otherwise (thirds, fifths ...) a zero pivot may round to a tiny nonzero
+\* number, which no floating-point engine can tell from a legitimate one: the replayer then accepts either outcome.
+RECURSIVE IsPow2(_)
+IsPow2(n) == n = 1 \/ (n > 1 /\ n % 2 = 0 /\ IsPow2(n \div 2))
+Dyadic(st) == /\ \A k \in Idx : IsPow2(st.D[k][2])
+              /\ \A ij \in Idx \X Idx : IsPow2(st.L[ij][2])
 FactJ(st, withSolve) ==
-  [err |-> st.err, tie |-> st.tie, cnt |-> st.cnt,
+  [err |-> st.err, tie |-> st.tie, cnt |-> st.cnt, dyadic |-> Dyadic(st),
    D |-> [k \in Idx |-> RatJ(st.D[k])],
    L |-> [i \in Idx |-> [j \in Idx |-> RatJ(st.L[<<i, j>>])]],
    inertia |-> IF st.err = "none" THEN Inertia(st) ELSE 0,
